@@ -47,6 +47,9 @@ MChg(m, f, t, attrs, init) == [Blank EXCEPT !.k = "Chg", !.m = m, !.f = f,
                                  !.ftype = t, !.attrs = attrs, !.init = init]
 MDel(m, f)       == [Blank EXCEPT !.k = "Del", !.m = m, !.f = f]
 MRenF(m, f, g)   == [Blank EXCEPT !.k = "RenF", !.m = m, !.f = f, !.of = f, !.nf = g]
+(* a rename that keeps the column: RenameField(..., db_column=<the column the field has>); "@f" stands for
+   "the default column of field f" *)
+MRenFK(m, f, g)  == [Blank EXCEPT !.k = "RenF", !.m = m, !.f = f, !.of = f, !.nf = g, !.dbcol = "@" \o f]
 MMetaUT(m, v)    == [Blank EXCEPT !.k = "Meta", !.m = m, !.prop = "unique_together", !.val = v]
 MMetaIT(m, v)    == [Blank EXCEPT !.k = "Meta", !.m = m, !.prop = "index_together", !.val = v]
 MMetaIdx(m, v)   == [Blank EXCEPT !.k = "Meta", !.m = m, !.prop = "indexes", !.ival = v]
@@ -250,6 +253,12 @@ Alphabet ==
           \* (g, f), not (f, g): a unique_together over the very columns of uq_fg would be a
           \* second, indistinguishable unique index
           MMetaUT("A", << <<"g", "f">> >>), MSQL }
+    [] AlphaId = 15 ->     \* field renames that keep their column (no SQL at all), names re-used by the next
+                           \* rename, and changes that address the fields by their NEW names
+        { MRenFK("A", "f", "h"), MRenFK("A", "g", "f"), MRenFK("A", "g", "h"), MRenF("A", "g", "h"),
+          MChg("A", "f", None, D1("null", TRUE), None), MChg("A", "h", None, D1("null", TRUE), None),
+          MChg("A", "g", None, D1("db_index", TRUE), None), MChg("A", "h", None, D1("db_index", TRUE), None),
+          MDel("A", "f"), MAdd("A", "k", "Int", D1("null", TRUE), None) }
     [] AlphaId = 14 ->     \* a relation added to a model that is renamed later in the same batch, inside a run
                            \* of other rebuilding changes of the referring table; the referring model sorts
                            \* after the renamed one and before its new name, and a third model changes too
